@@ -182,6 +182,7 @@ class _Seen:
         else:
             self.md = m.create_markdown(plugins=["table", "footnotes", FencedDirective([TableOfContents(1, 6)]), RSTDirective([TableOfContents(1, 6)])])
         self.kind = kind
+        self.block = self.md.block     # (the mechanism classifier patches a method of the block parser in place)
 
     def __call__(self, doc):
         if self.kind == "directive" and "{toc}" not in doc and ".. toc::" not in doc:
@@ -297,6 +298,10 @@ def oracle(ctx, extra):
                 # staircase of lone markers below it (each line a continuation of the item above)
                 mark, step = r.choice(["-", "+", "*", "1.", "=", "- x", ">"]), r.choice([2, 3])
                 doc = "".join("> " * r.choice([0, 0, 3, 5]) + " " * (step * i) + mark + "\n" for i in range(r.randint(3, 12)))
+            if r.random() < 0.4:
+                # the same below a line of '-' or '=' at the top level (the rule that decides what such a line is depends on the depth
+                # at which it stands: whatever it works out for one depth must not be used at another)
+                doc = r.choice(["---\n\n", "intro\n\n---\n\n", "***\n===\n\n", "-\n\n", "=\n\n", "> ---\n\n", "- -\n\n"]) + doc
         elif k < 0.9:
             doc = gen_docs.mutate(r, gen_docs.doc(r, plugins=plugins, directives=directives))
         else:
